@@ -326,6 +326,7 @@ NP_FUNCS: dict[str, Callable] = {
     "absolute": lambda a: _elementwise(sp.Abs, a),
     "where": lambda c, a, b: np.where(np.asarray(_as_bool(c)), np.asarray(a, dtype=object), np.asarray(b, dtype=object)),
     "atleast_1d": lambda a: np.atleast_1d(np.asarray(a, dtype=object)),
+    "meshgrid": lambda *xs, indexing="xy", **kw: [np.asarray(g, dtype=object) for g in np.meshgrid(*[np.asarray(x, dtype=object) for x in xs], indexing=indexing, **kw)],
     "outer": lambda a, b: np.multiply.outer(np.asarray(a, dtype=object).ravel(), np.asarray(b, dtype=object).ravel()),
     "prod": lambda a, **kw: _prod(a),
 }
@@ -827,6 +828,12 @@ class NpSem:
                 return lambda **kw: obj.copy()
             if a == "swapaxes":
                 return lambda i, j: obj.swapaxes(i, j)
+            if a == "reshape":
+                return lambda *shape, **kw: obj.reshape(*shape)
+            if a in ("ravel", "flatten"):
+                return lambda **kw: obj.ravel()
+            if a == "astype":
+                return lambda *dt, **kw: obj
             if a == "transpose":
                 return lambda *ax: obj.transpose(*ax)
             if a == "sum":
